@@ -4,6 +4,7 @@ import (
 	"context"
 	"encoding/json"
 	"fmt"
+	"math"
 	"strings"
 
 	"github.com/theory/sqljson/path/ast"
@@ -144,6 +145,31 @@ func compareNumbers[T int | int64 | float64](left, right T) int {
 	return 0
 }
 
+// compareIntFloat compares an integer with a double by value and returns 0,
+// 1, or -1. Converting the integer to float64 would round it when its
+// magnitude exceeds 2^53, making it equal to doubles it differs from.
+func compareIntFloat(left int64, right float64) int {
+	const two63 = 9223372036854775808.0 // 2^63
+	switch {
+	case math.IsNaN(right):
+		// Unordered. Cannot come from JSON.
+		return 0
+	case right >= two63:
+		return -1
+	case right < -two63:
+		return 1
+	}
+
+	// The integral part of right fits an int64 and converts back exactly.
+	whole := int64(right)
+	if left != whole {
+		return compareNumbers(left, whole)
+	}
+
+	// Same integral part: the fraction of right decides.
+	return compareNumbers(0, right-float64(whole))
+}
+
 // compareBool compares two numeric values and returns 0, 1, or -1. The left
 // and right params must be int64, float64, or json.Number values.
 func compareNumeric(left, right any) int {
@@ -153,14 +179,14 @@ func compareNumeric(left, right any) int {
 		case int64:
 			return compareNumbers(left, right)
 		case float64:
-			return compareNumbers(float64(left), right)
+			return compareIntFloat(left, right)
 		case json.Number:
 			if rightInt, err := right.Int64(); err == nil {
 				return compareNumbers(left, rightInt)
 			}
 			rightFloat, err := right.Float64()
 			if err == nil {
-				return compareNumbers(float64(left), rightFloat)
+				return compareIntFloat(left, rightFloat)
 			}
 			// This should not happen.
 			panic(err)
@@ -170,7 +196,7 @@ func compareNumeric(left, right any) int {
 		case float64:
 			return compareNumbers(left, right)
 		case int64:
-			return compareNumbers(left, float64(right))
+			return -compareIntFloat(right, left)
 		case json.Number:
 			rightFloat, err := right.Float64()
 			if err == nil {
